@@ -46,7 +46,7 @@ RF_RULE = ("every byte stream over {a,CR,LF,NUL} of length <=4 (quick; <=6 thoro
 PROPS = {
     "C07": {
         "module": "FBV.Props.C07b",
-        "theorems": ["FBV.C07.serveZ_spec", "FBV.C07.drainZ_spec", "FBV.C07.serve_spec", "FBV.C07.drain_spec", "FBV.C07.chain_read_spec", "FBV.C07.ab_read_spec", "FBV.C02.read_frame_spec"],
+        "theorems": ["FBV.C07.serveW_spec", "FBV.C07.serveW_eq", "FBV.C07.serveZ_spec", "FBV.C07.drainZ_spec", "FBV.C07.serve_spec", "FBV.C07.drain_spec", "FBV.C07.chain_read_spec", "FBV.C07.ab_read_spec", "FBV.C02.read_frame_spec"],
         "jobs": (lambda tier: [{"which": w, "profile": p, "args": [m], "oc": p == "dev"} for (w, m) in (("sync", "pl"), ("tokio", "apl"), ("sync", "big")) for p in ("dev", "release")]),
         "tie": "T2 the loop of tests/server.rs re-expressed over a scripted transport (library calls are the real ones), blocking and tokio (hand-driven polls, Pending on reads and writes)",
         "rule": ("connections of 1-3 requests `[len byte][extra][CR]LF payload` with payload lengths {0,1,2,3,5,9} (payload bytes include LF/CR), truncated at random "
@@ -56,8 +56,10 @@ PROPS = {
         "level_text": ("Kernel-checked composition: for every connection stream, every chunking, every schedule of positive destination sizes, every lenOf (lengths 0, "
                        "> SIZE, EOF inside a payload), every SIZE and contract-honouring deframer, the request loop returns exactly the consecutive segments of the "
                        "stream (serve_spec = read_frame_spec + drain_spec over chain/take, with over-read buffer bytes delivered before any stream byte and the "
-                       "rest left for the next read_frame). PARTIAL in one named respect: zero-length destinations in the drain schedule and the response write-through "
-                       "are covered by the correspondence (and C08/C13), not by serve_spec; the async variant rests on C14/C16 and is tied by hand-driven polls."),
+                       "rest left for the next read_frame); serveZ_spec extends this to every destination schedule incl. zero-length destinations, and serveW_spec to "
+                       "the responses: the transport's write log grows by exactly resp(header, payload) per request, in request order, and the write-through "
+                       "does not disturb the read side (writes are modelled as forwarded unchanged, which is C13's statement). The async variant rests on "
+                       "C14/C16 and is tied by hand-driven polls."),
     },
     "C02": {
         "module": "FBV.Props.C02",
